@@ -80,3 +80,22 @@ Print Assumptions create_directories_blocks.
 Theorem tree_blocks : forall o ops, log_ok (tree_life o ops) [] = true.
 Proof. exact tree_life_ok. Qed.
 Print Assumptions tree_blocks.
+
+(* the default allocator (src/allocator.c, used when the caller passes NULL): every entry forwards to libc with one
+   call carrying the same arguments; aligned_alloc is posix_memalign and aligned_free is free (the matching release
+   on POSIX), so a balanced request sequence is a balanced libc call sequence *)
+Theorem default_allocator_forwards :
+  forall rs, length (default_trace rs) = length rs /\
+    (forall i r, nth_error rs i = Some r -> nth_error (default_trace rs) i = Some (default_call r)) /\
+    length (filter call_allocs (default_trace rs)) = length (filter req_allocs rs) /\
+    length (filter call_frees (default_trace rs)) = length (filter req_frees rs).
+Proof.
+  intros rs. split; [apply default_trace_length|]. split; [|apply default_trace_balance].
+  intros i r H. unfold default_trace. now rewrite nth_error_map, H.
+Qed.
+Print Assumptions default_allocator_forwards.
+
+Theorem default_aligned_pairing :
+  forall al n b, default_call (DAlignedAlloc al n) = LPosixMemalign al n /\ default_call (DAlignedFree b) = LFree b.
+Proof. intros; split; reflexivity. Qed.
+Print Assumptions default_aligned_pairing.
